@@ -140,4 +140,128 @@ example : lookupFS (afterReduce ["a.c", "b.c"] (fun n => s!"cvise_bug_{n}") (fun
 example : lookupFS (afterReduce ["a.c", "b.c"] (fun n => s!"cvise_bug_{n}") (fun n => s!"cvise_extra_{n}") false
     [("a.c", [1]), ("b.c", [2]), ("notes.txt", [3])] [.commit 0 0 [9], .bugdir]) "a.c.orig" = some [1] := by decide
 
+/-! ### `--to-utf8`: the conversion happens in the front end, before the reduction makes its backup (F18) -/
+
+theorem append_orig_inj {f g : String} (h : f ++ ".orig" = g ++ ".orig") : f = g := by
+  have := congrArg String.toList h
+  simp only [String.toList_append] at this
+  exact String.toList_inj.mp (List.append_cancel_right this)
+
+theorem lookup_append_other (fs : FS) (q p : String) (b : Bytes) (h : q ≠ p) :
+    lookupFS (fs ++ [(q, b)]) p = lookupFS fs p := by
+  unfold lookupFS
+  rw [List.lookup_append]
+  have : (p == q) = false := by simp only [beq_eq_false_iff_ne, ne_eq]; exact fun e => h e.symm
+  cases List.lookup p fs <;> simp [List.lookup, this]
+
+/-- a conversion step for other test cases leaves `f` and `f.orig` alone -/
+theorem toUtf8_other (bf tidy : Bool) (isUtf8 : Bytes → Bool) (conv : Bytes → Bytes) (p : String) :
+    ∀ (names : List String) (fs : FS), p ∉ names → (∀ g ∈ names, g ++ ".orig" ≠ p) →
+    lookupFS (toUtf8Step bf tidy isUtf8 conv fs names) p = lookupFS fs p := by
+  intro names
+  induction names with
+  | nil => intro fs _ _; rfl
+  | cons g rest ih =>
+    intro fs hp ho
+    have hg : g ≠ p := fun e => hp (e ▸ List.mem_cons_self)
+    have hrest : p ∉ rest := fun h => hp (List.mem_cons_of_mem _ h)
+    have horest : ∀ x ∈ rest, x ++ ".orig" ≠ p := fun x hx => ho x (List.mem_cons_of_mem _ hx)
+    simp only [toUtf8Step]
+    split
+    · exact ih fs hrest horest
+    · split
+      · exact ih fs hrest horest
+      · rw [ih _ hrest horest, lookup_writeFS_ne _ _ _ _ (fun e => hg e.symm)]
+        split
+        · exact lookup_append_other fs _ p _ (ho g List.mem_cons_self)
+        · rfl
+
+/-- **with `--to-utf8` the original survives too**: for a test case `f` that exists with bytes `b` and has no backup yet
+    (no test case is named like a backup, no name occurs twice), after the conversion step *and* any reduction, `f.orig`
+    holds `b` — the bytes before the program touched the file, converted or not -/
+theorem to_utf8_keeps_original (isUtf8 : Bytes → Bool) (conv : Bytes → Bytes)
+    (names : List String) (bugName extraName : Nat → String)
+    (hb : ∀ n, isReportPath (bugName n) = true) (he : ∀ n, isReportPath (extraName n) = true)
+    (hnd : names.Nodup) (hno : ∀ g ∈ names, g ++ ".orig" ∉ names)
+    (fs : FS) (log : List (D.Ev Bytes)) (disk : List Bytes) (f : String) (b : Bytes)
+    (hf : f ∈ names) (hfb : lookupFS fs f = some b) (hfo : lookupFS fs (f ++ ".orig") = none)
+    (hr : isReportPath (f ++ ".orig") = false) :
+    lookupFS (afterReduceD names bugName extraName false (toUtf8Step true false isUtf8 conv fs names) log disk) (f ++ ".orig")
+      = some b := by
+  rw [original_survives names bugName extraName hb he _ log disk f (hno f hf) hr]
+  -- what the conversion step leaves at `f` and `f.orig`
+  have key : ∀ (ns : List String) (fs : FS), ns.Nodup → (∀ g ∈ ns, g ++ ".orig" ∉ names) → (∀ g ∈ ns, g ∈ names) → f ∈ ns →
+      lookupFS fs f = some b → lookupFS fs (f ++ ".orig") = none →
+      (lookupFS (toUtf8Step true false isUtf8 conv fs ns) (f ++ ".orig") = some b) ∨
+      (lookupFS (toUtf8Step true false isUtf8 conv fs ns) f = some b ∧
+       lookupFS (toUtf8Step true false isUtf8 conv fs ns) (f ++ ".orig") = none) := by
+    intro ns
+    induction ns with
+    | nil => intro fs _ _ _ h; cases h
+    | cons g rest ih =>
+      intro fs hnd' hno' hsub hmem hfb' hfo'
+      have hnd2 := List.nodup_cons.mp hnd'
+      have hno2 : ∀ x ∈ rest, x ++ ".orig" ∉ names := fun x hx => hno' x (List.mem_cons_of_mem _ hx)
+      have hsub2 : ∀ x ∈ rest, x ∈ names := fun x hx => hsub x (List.mem_cons_of_mem _ hx)
+      by_cases hgf : g = f
+      · subst hgf
+        -- this is `g`'s own step; the rest does not touch `g` nor `g.orig`
+        have hrest1 : g ∉ rest := hnd2.1
+        have hrest2 : ∀ x ∈ rest, x ++ ".orig" ≠ g := fun x hx e => hno2 x hx (e ▸ hf)
+        have hrest3 : g ++ ".orig" ∉ rest := fun h => hno' g List.mem_cons_self (hsub2 _ h)
+        have hrest4 : ∀ x ∈ rest, x ++ ".orig" ≠ g ++ ".orig" := fun x hx e => hrest1 (append_orig_inj e ▸ hx)
+        simp only [toUtf8Step, hfb']
+        split
+        · right
+          exact ⟨by rw [toUtf8_other _ _ _ _ g rest fs hrest1 hrest2]; exact hfb',
+                 by rw [toUtf8_other _ _ _ _ (g ++ ".orig") rest fs hrest3 hrest4]; exact hfo'⟩
+        · left
+          rw [toUtf8_other _ _ _ _ (g ++ ".orig") rest _ hrest3 hrest4]
+          have hne : g ++ ".orig" ≠ g := fun e => hno' g List.mem_cons_self (by rw [e]; exact hf)
+          rw [lookup_writeFS_ne _ _ _ _ hne]
+          simp only [hfo', Option.isNone_none, Bool.not_false, Bool.and_self, if_true]
+          exact lookup_append_new fs _ b hfo'
+      · have hfr : f ∈ rest := by
+          simp only [List.mem_cons] at hmem
+          rcases hmem with h | h
+          · exact absurd h.symm hgf
+          · exact h
+        have hgn : g ∈ names := hsub g List.mem_cons_self
+        have h1 : g ≠ f := hgf
+        have h2 : g ++ ".orig" ≠ f := fun e => hno' g List.mem_cons_self (e ▸ hf)
+        have h3 : g ≠ f ++ ".orig" := fun e => hno f hf (e ▸ hgn)
+        have h4 : g ++ ".orig" ≠ f ++ ".orig" := fun e => hgf (append_orig_inj e)
+        simp only [toUtf8Step]
+        split
+        · exact ih fs hnd2.2 hno2 hsub2 hfr hfb' hfo'
+        · split
+          · exact ih fs hnd2.2 hno2 hsub2 hfr hfb' hfo'
+          · apply ih _ hnd2.2 hno2 hsub2 hfr
+            · rw [lookup_writeFS_ne _ _ _ _ (fun e => h1 e.symm)]
+              split
+              · rw [lookup_append_other fs _ f _ h2]; exact hfb'
+              · exact hfb'
+            · rw [lookup_writeFS_ne _ _ _ _ (fun e => h3 e.symm)]
+              split
+              · rw [lookup_append_other fs _ (f ++ ".orig") _ h4]; exact hfo'
+              · exact hfo'
+  rcases key names fs hnd hno (fun g hg => hg) hf hfb hfo with h | ⟨h1, h2⟩
+  · exact backup_preserves names _ _ b h
+  · exact backup_creates names _ f b hf h1 h2
+
+/-- the guard is the code's (regenerated from the `--to-utf8` block of `cvise.py` on every run) -/
+theorem shipped_to_utf8_backup_first : Gen.toUtf8BackupFirst = true := by decide
+
+/-- without the copy (the code before `39f513f`) the backup holds the *converted* bytes: `a.c` is Latin-1 (`[233]`),
+    its conversion is `[195, 169]` -/
+theorem old_to_utf8_loses_original :
+    lookupFS (afterReduceD ["a.c"] (fun n => s!"cvise_bug_{n}") (fun n => s!"cvise_extra_{n}") false
+      (toUtf8Step false false (fun b => b.all (· < 128)) (fun _ => [195, 169]) [("a.c", [233])] ["a.c"]) [] [[195, 169]]) "a.c.orig"
+      = some [195, 169] := by decide
+
+example :
+    lookupFS (afterReduceD ["a.c"] (fun n => s!"cvise_bug_{n}") (fun n => s!"cvise_extra_{n}") false
+      (toUtf8Step true false (fun b => b.all (· < 128)) (fun _ => [195, 169]) [("a.c", [233])] ["a.c"]) [] [[195, 169]]) "a.c.orig"
+      = some [233] := by decide
+
 end Cvise.C04
